@@ -43,6 +43,10 @@ def run_matrix(chk, props, deciding, rule, names=None, extra_case=None, post=Non
     cells = set()
     for c, r in zip(cases, results):
         small = {k: v for k, v in c.items() if k not in ("outdir", "_timeout")}
+        if (r.get("_watchdog") or "_died" in r) and c.get("generated"):
+            chk.count("generated_configurations_over_budget")
+            chk.evaluations += 1
+            continue
         if r.get("_watchdog") or "_died" in r or r.get("_error"):
             chk.note_inconclusive(f"{c['name']}: {str(r)[:600]}")
             chk.case_done()
@@ -50,6 +54,19 @@ def run_matrix(chk, props, deciding, rule, names=None, extra_case=None, post=Non
         chk.merge_counters(r.get("counts"))
         if r.get("budget_exceeded") and not [p for p in r["problems"] if p[0] in props]:
             chk.note_inconclusive(f"{c['name']}: {r['budget_exceeded']} (no witness for this property)")
+        if r.get("error") and c.get("generated"):
+            # randomly combined options: a combination nessai rejects, or one that fails for reasons owned by C20 (bounded progress / option pairs), is outside this
+            # property's quantifier ("supported configurations"); counted, never silently dropped
+            chk.count("generated_configurations_rejected_up_front" if r.get("points_at_error") == 0 else "generated_configurations_failing_after_start")
+            chk.extra.setdefault("generated_configurations_failing", [])
+            if len(chk.extra["generated_configurations_failing"]) < 12:
+                chk.extra["generated_configurations_failing"].append(dict(kwargs=c["kwargs"], model=c["model"], error=r["error"][:120], where=classify_error(r)))
+            chk.evaluations += 1
+            continue
+        if (r.get("_watchdog") or r.get("budget_exceeded")) and c.get("generated"):
+            chk.count("generated_configurations_over_budget")
+            chk.evaluations += 1
+            continue
         if r.get("error"):
             # a run that raises is a harness-level event for this property unless the property says otherwise
             key = classify_error(r)
